@@ -338,6 +338,9 @@ class Slicer:
         if isinstance(self.slices, list):
             new_slicer = copy(self)
             new_slicer.slices = new_slicer.slices.__getitem__(item)
+            # shape and size are cached properties: do not inherit the parent's
+            new_slicer.__dict__.pop('shape', None)
+            new_slicer.__dict__.pop('size', None)
             return new_slicer
 
         if isinstance(item, (int, slice)):
@@ -351,6 +354,8 @@ class Slicer:
                 item = (item[0], slice(col, col + 1))
             if isinstance(item[0], slice) and isinstance(item[1], slice):
                 new_slicer = copy(self)
+                new_slicer.__dict__.pop('shape', None)
+                new_slicer.__dict__.pop('size', None)
                 new_slicer.items = item
                 new_slicer.slices = (Slicer._process_sub_slice(self.slices[0], item[0], self.row_labels),
                                      Slicer._process_sub_slice(self.slices[1], item[1], self.col_labels))
